@@ -8,10 +8,15 @@ use solstat::analyzer::utils::get_solidity_version_from_source_unit;
 use std::collections::BTreeSet;
 
 pub fn render_pragma(p: &Value) -> String {
+    render_pragma_gap(p, " ")
+}
+
+/// `gap` = what stands between the keyword `pragma` and the identifier `solidity` (any white space or comment will do)
+pub fn render_pragma_gap(p: &Value, gap: &str) -> String {
     match p["kind"].as_str().unwrap_or("") {
         "solidity" => {
             let v = as_i64s(&p["ver"]);
-            format!("pragma solidity {}{}.{}.{};", p["op"].as_str().unwrap_or(""), v[0], v[1], v[2])
+            format!("pragma{}solidity {}{}.{}.{};", gap, p["op"].as_str().unwrap_or(""), v[0], v[1], v[2])
         }
         "experimental" => "pragma experimental ABIEncoderV2;".to_string(),
         // a top-level item before the (remaining) pragmas, on one line
@@ -108,8 +113,9 @@ pub fn replay(behaviours: &str, out: &mut Outcome) {
         let (body_text, s, r, l) = &bodies[if rec["usingAt"] == "file" { 1 } else { 0 }];
         let header = rec["header"].as_array().cloned().unwrap_or_default();
         let mut src = String::from("// SPDX-License-Identifier: MIT\n");
+        let gap = [" ", "  ", "\t", " /* v */ ", " "][idx % 5];
         for p in header.iter() {
-            src.push_str(&render_pragma(p));
+            src.push_str(&render_pragma_gap(p, gap));
             src.push('\n');
         }
         let off = 1 + header.len() as i32;
